@@ -12,6 +12,11 @@ import (
 	"golang.org/x/tools/go/ssa"
 )
 
+type goLaunch struct {
+	name string
+	recv Value
+}
+
 type World struct {
 	ex         *Exec
 	backend    string
@@ -42,6 +47,8 @@ type World struct {
 	subFaults  int
 	curCoro    int
 	ncoro      int
+	runCoro    *CoroObj    // the coroutine whose code is executing (nil: harness code)
+	watches    []*subWatch // first submissions of spawned coroutines still in flight
 	config     Value
 	storeWorker Value // IfaceV of store.Store
 	routerWorker Value
@@ -79,6 +86,8 @@ type World struct {
 	schedFull  int
 	schedCap, schedAdmitted int
 	goSkipped  int
+	schemaExecs, schemaNotIdempotent int
+	goLog      []goLaunch // go statements met under vx.IgnoreGo (function name, receiver or first argument)
 	lenOf      map[int]*Term
 	ginWildcards map[string]bool
 	nbind      int
